@@ -211,6 +211,12 @@ func newC09Router(c c09Case) *c09Router {
 		} else {
 			reg()
 		}
+	case "global-404", "global-405":
+		// all handlers are GLOBAL middleware; the request matches no route (no route of its method) and is answered by the
+		// built-in responder
+		for _, h := range hs {
+			r.Use(h)
+		}
 	case "notfound":
 		r.NotFound(hs...)
 	case "notallowed":
@@ -230,8 +236,10 @@ func newC09Router(c c09Case) *c09Router {
 
 func (c c09Case) request() (string, string) {
 	switch c.Where {
-	case "notfound":
+	case "notfound", "global-404":
 		return "GET", "/nope/at/all"
+	case "global-405":
+		return "PUT", "/store"
 	case "notallowed":
 		return "PUT", "/store"
 	case "onerror":
@@ -452,6 +460,21 @@ func c09Gen(tier string, emit func(c09Case)) {
 			}
 		}
 	}
+	for _, where := range []string{"global-404", "global-405"} {
+		for n := 1; n <= 2; n++ {
+			for pos := 0; pos < n; pos++ {
+				// (before the built-in responder has written its page)
+				for _, when := range []string{"before-next"} {
+					for _, hk := range hooks {
+						for _, v := range []string{"string", "error"} {
+							emit(c09Case{Where: where, N: n, Pos: pos, When: when, Value: v, Hook: hk, Twice: true})
+							emit(c09Case{Where: where, N: n, Pos: pos, When: when, Value: v, Hook: hk, Committed: true})
+						}
+					}
+				}
+			}
+		}
+	}
 	for _, where := range []string{"notfound", "notallowed", "onerror"} {
 		for n := 1; n <= 2; n++ {
 			if where == "onerror" && n > 1 {
@@ -479,7 +502,7 @@ func c09Gen(tier string, emit func(c09Case)) {
 var c09Spec = fw.Spec[c09Case]{
 	ID:    "C09",
 	Level: "model_checking",
-	Rule: "complete product: chain shapes n<=3 (thorough 5) x every global/group/route split x every panic position x {before Next, after Next, without Next} x panic value {string, error, struct, http.ErrAbortHandler, int} x hook {absent, does nothing, status only, status+body, body only, AbortWithStatus(503, message)} x {PanicsHandler middleware} x {a byte committed before the panic} (+ the panic request issued twice) (+ the router mounted behind a front router that passes its context on with HandleContext) (+ under the Timeout middleware with a deadline that is far away / has already passed) (+ on a caller's writer without Flush) (+ the panicking handler calls Abort first) (+ handlers.ConsoleLogger first in the chain with the request's path on its skip list) (+ the panic raised by the caller's ResponseWriter when the handler commits status 99) (+ the panic raised by a value's MarshalJSON inside the JSONP helper) (+ the panic raised by WriteString on a caller's writer that refuses every byte), plus panics inside NotFound / NotAllowed / OnError handlers (NotFound / NotAllowed also on a router without any global middleware); each followed by every one of 15 follow-up request kinds compared with a fresh identical router; " +
+	Rule: "complete product: chain shapes n<=3 (thorough 5) x every global/group/route split x every panic position x {before Next, after Next, without Next} x panic value {string, error, struct, http.ErrAbortHandler, int} x hook {absent, does nothing, status only, status+body, body only, AbortWithStatus(503, message)} x {PanicsHandler middleware} x {a byte committed before the panic} (+ the panic request issued twice) (+ the router mounted behind a front router that passes its context on with HandleContext) (+ under the Timeout middleware with a deadline that is far away / has already passed) (+ on a caller's writer without Flush) (+ the panicking handler calls Abort first) (+ handlers.ConsoleLogger first in the chain with the request's path on its skip list) (+ the panic raised by the caller's ResponseWriter when the handler commits status 99) (+ the panic raised by a value's MarshalJSON inside the JSONP helper) (+ the panic raised by WriteString on a caller's writer that refuses every byte), plus panics inside global middleware around the built-in 404 / 405 responders and inside NotFound / NotAllowed / OnError handlers (NotFound / NotAllowed also on a router without any global middleware); each followed by every one of 15 follow-up request kinds compared with a fresh identical router; " +
 		"every case is non-trivial (a panic is raised in each)",
 	Assume: []string{"for the in-chain PanicsHandler only 'the panic does not escape' and 'follow-ups are unaffected' are asserted (the statement promises nothing else for it)", "when the hook sets no status, any single committed status is accepted"},
 	Bounds: func(tier string) map[string]any {
